@@ -31,9 +31,9 @@ theorem params_of_targets :
   decide
 
 /-- Tie to the source: `process_definition` / `assign_api_bindings` still have, statement by statement,
-    the shape that `Model.Slots.step` / `assign` mirror (13 regex facts over the current source). -/
+    the shape that `Model.Slots.step` / `assign` mirror (14 regex facts over the current source). -/
 theorem alloc_shape_as_modelled :
-    allocShape = ⟨true, true, true, true, true, true, true, true, true, true, true, true, true⟩ := by decide
+    allocShape = ⟨true, true, true, true, true, true, true, true, true, true, true, true, true, true⟩ := by decide
 
 /-- Index slots: in every group the index-bound declarations receive, in declaration order,
     consecutive ranges of exactly the required length starting at zero — no gap, no overlap —
